@@ -2,7 +2,9 @@
 (* X04, histories: a SequenceProfile object as a state machine over SeqProfileOps.Apply.
 
    A behaviour makes a profile (from_alignment or the constructor) and then applies up to
-   Depth - 1 further public calls: indexing of an indexed profile, observers after the count
+   Depth - 1 further public calls, plus one more observer call when the last call was an accepted
+   write (`mut`): "observe, write, observe again" histories show an observer that answers from
+   what it saw before the write.  The calls: indexing of an indexed profile, observers after the count
    tables were replaced (property setters) or written in place (public attributes), equality
    against an independently built profile, ...  TLC checks the invariants on every reachable
    state; every transition of the state graph is replayed against the real class (S2).
@@ -18,8 +20,8 @@ EXTENDS SeqProfileOps
 
 CONSTANTS Depth, Rich
 
-VARIABLES made, p, oc, out, steps
-vars == <<made, p, oc, out, steps>>
+VARIABLES made, p, oc, out, steps, mut
+vars == <<made, p, oc, out, steps, mut>>
 
 Gen3 == <<"x", "y", "z">>
 A1 == AlnFromRows(<<DnaAlph, DnaAlph, DnaAlph>>,
@@ -50,6 +52,9 @@ Users ==
   \cup {<<"seqprob_k", <<1>>>>, <<"seqscore_k", <<2>>>>}
   \cup {<<"eq_k", <<v>>>> : v \in {"same", "gaps", "counts", "alph"}}
 AllCalls == Makers \cup Users
+\* observers allowed as the extra call after a write
+AfterWrite == {"consensus", "prob", "odds", "seqprob_k", "seqscore_k", "eq_k", "len", "str"}
+Writes     == {"set_symbols", "set_gaps", "poke_symbols", "poke_gaps"}
 
 Bump(rows)  == [i \in DOMAIN rows |-> [j \in DOMAIN rows[i] |-> rows[i][j] + 1]]
 FirstSeq(q) == Sq(q.alph, [i \in DOMAIN q.rows |-> q.alph[1]])
@@ -88,17 +93,20 @@ Published(cc, res) ==
     [] cc[1] \in {"seqprob", "seqscore"}     -> [arg |-> cc[2][1], res |-> res.out]
     [] OTHER                                 -> [arg |-> <<>>, res |-> res.out]
 
-Init == made = FALSE /\ p = NoProfile /\ oc = "ok" /\ out = [arg |-> <<>>, res |-> <<>>] /\ steps = 0
+Init == /\ made = FALSE /\ p = NoProfile /\ oc = "ok" /\ out = [arg |-> <<>>, res |-> <<>>] /\ steps = 0
+        /\ mut = FALSE
 
 Make(cl) == /\ ~made /\ cl \in Makers
             /\ LET res == Apply(NoProfile, cl[1], cl[2])
                IN p' = res.p /\ oc' = res.oc /\ out' = [arg |-> <<>>, res |-> <<>>]
-            /\ made' = TRUE /\ steps' = 1
-Use(cl)  == /\ made /\ steps < Depth /\ cl \in Users
+            /\ made' = TRUE /\ steps' = 1 /\ mut' = FALSE
+Use(cl)  == /\ made /\ cl \in Users
+            /\ (steps < Depth \/ (steps = Depth /\ mut /\ cl[1] \in AfterWrite))
             /\ Enabled(cl[1], cl[2]) = TRUE
             /\ LET cc  == Concrete(cl[1], cl[2])
                    res == Apply(p, cc[1], cc[2])
-               IN p' = res.p /\ oc' = res.oc /\ out' = Published(cc, res)
+               IN /\ p' = res.p /\ oc' = res.oc /\ out' = Published(cc, res)
+                  /\ mut' = (cc[1] \in Writes /\ res.oc = "ok")
             /\ UNCHANGED made /\ steps' = steps + 1
 Call(cl) == Make(cl) \/ Use(cl)
 Next == \E cl \in AllCalls : Call(cl)
@@ -107,13 +115,15 @@ Spec == Init /\ [][Next]_vars
 (* ---------------------------------------------------------------- properties *)
 InvWellFormed  == made => WellFormedProfile(p) /\ Dom_Counts(p)
 RefusalIsNoOp  == [][(made /\ oc' # "ok") => p' = p]_vars
-\* the laws hold at every reachable profile, not only at freshly made ones
-InvConsensusHere == made => Law_Consensus(p, FALSE) /\ Law_Consensus(p, TRUE)
-InvProbHere      == made => Law_Probabilities(p, 0) /\ Law_Probabilities(p, 1)
-InvHelpersHere   == made => Law_Helpers(p, FirstSeq(p), 1)
+\* the laws hold at every reachable profile, not only at freshly made ones (checked on the
+\* profiles below the last level; the last level of one tier is an inner level of the next)
+Inner == made /\ steps < Depth
+InvConsensusHere == Inner => Law_Consensus(p, FALSE) /\ Law_Consensus(p, TRUE)
+InvProbHere      == Inner => Law_Probabilities(p, 0) /\ Law_Probabilities(p, 1)
+InvHelpersHere   == Inner => Law_Helpers(p, FirstSeq(p), 1)
 SomeSlices       == {<<"slice", <<Some(1), None, None>>>>, <<"slice", <<None, None, Some(-1)>>>>,
                      <<"slice", <<None, Some(-1), Some(2)>>>>}
 HereIdx          == IntIdx((-Len(p.rows))..(Len(p.rows) - 1)) \cup SomeSlices
-InvIndexHere     == made => \A i1 \in HereIdx : \A i2 \in SomeSlices \cup IntIdx({0}) :
+InvIndexHere     == Inner => \A i1 \in HereIdx : \A i2 \in SomeSlices \cup IntIdx({0}) :
                                Law_IndexCompose(p, i1, i2)
 =============================================================================
